@@ -67,7 +67,7 @@ def classify_exception(ctx, e, where="workload"):
         sys.stderr.write(tb_tail(e, 10))
 
 
-def cold_start_permutations(prop, tier, recorded, ctx):
+def cold_start_permutations(prop, tier, recorded, ctx, max_orders=9):
     """The first case of every kind again, each ordering in a *fresh interpreter*: state that is set up lazily by whichever
     public function happens to run first (a table built on first use, a default captured at first call) must not matter."""
     first = {}
@@ -81,7 +81,7 @@ def cold_start_permutations(prop, tier, recorded, ctx):
     if len(cases) < 2:
         return
     # every kind goes first once (up to nine fresh processes), the rest follows in rotated order; plus the reversed order
-    orders = [cases[i:] + cases[:i] for i in range(1, min(len(cases), 9))] + [list(reversed(cases))]
+    orders = ([cases[i:] + cases[:i] for i in range(1, min(len(cases), max_orders))] + [list(reversed(cases))])[:max_orders]
     tmp = tempfile.mkdtemp(prefix=f"spv-cold-{prop}-")
     try:
         for i, order in enumerate(orders):
@@ -167,7 +167,7 @@ def run_in_process(mod, ctx: Ctx):
             fn(ctx, *a, **k)
         ctx.extra["revisited_early_cases"] = len(recorded)
         if ctx.shard[0] == 0 and os.environ.get("SPV_NO_COLD") != "1":
-            cold_start_permutations(ctx.prop, ctx.tier, named, ctx)
+            cold_start_permutations(ctx.prop, ctx.tier, named, ctx, getattr(mod, "COLD_ORDERS", 9))
     except Exception as e:  # noqa: BLE001
         classify_exception(ctx, e)
     if getattr(mod, "SCRIBBLE", False):
